@@ -1,5 +1,10 @@
+import os
 from engine import Query
 META = {}
+# known findings of this harness; with VF_KF_MANUAL=1 the defines are passed directly (ids not yet in known_findings.json)
+KF_CTOR = 'C12-number-ctor-uninit'
+KF_TYPE = 'C12-assign-type-no-reset'
+MAN = os.environ.get('VF_KF_MANUAL') == '1'
 KIND = {'U': 0, 'S': 4, 'UI': 5, 'I': 6, 'D': 7, 'T': 8, 'F': 9, 'NUL': 10}
 OP = {'NONE': 0, 'AS_SCALAR': 1, 'AS_TYPE': 2, 'AS_STR': 3, 'AS_ARR': 4, 'AS_COPY': 5, 'AS_MOVE': 6, 'AS_SELF': 7, 'CTOR_COPY': 8, 'CTOR_MOVE': 9,
       'AP_SCALAR': 10, 'AP_STR': 11, 'AP_ARR': 12, 'AP_COPY': 13, 'AP_MOVE': 14, 'AP_PTR': 15, 'INDEX': 16, 'MERGE_COPY': 17, 'MERGE_MOVE': 18,
@@ -21,24 +26,65 @@ def cls(name):
     if ptr: d['K'] = 1; d['TK'] = k
     else: d['K'] = k
     return d
-B = {'Dispose': 6, 'Copy': 16, 'SetToZero': 16, 'vf_mem.*': 130, 'Count': 4, 'IsEqual': 4, 'h_step|mk.*|m_.*|obs_.*|scalar_arg|mutate': 6, 'Initialize': 6}
+def nmemb(name):
+    c = cls(name); return c['N'] if c['K'] == 3 else 0
+B = {'Dispose': 6, 'Copy': 100, 'SetToZero': 100, 'vf_mem.*': 100, 'Count': 4, 'IsEqual': 6, 'h_step|mk.*|m_.*|obs_.*|scalar_arg|mutate|slot_fill': 9, 'Initialize': 6}
 STN = '_ZN6Qentem5Digit14stringToNumberIcEENS_11QNumberTypeERNS_9QNumber64EPKT_Rjj'
-def Q(pre, op, src=None, **kw):
+def Q(pre, op, src=None, kf_only=None, **kw):
     d = {'OP': OP[op]}
     name = '%s/%s' % (op, pre)
     for k, v in cls(pre).items(): d['PRE_' + k] = v
     if src is not None:
         for k, v in cls(src).items(): d['SRC_' + k] = v
         name += '/src=' + src
-    for k in ('SEL', 'LEN_A', 'AN', 'IDX', 'COERCE'):
+    for k in ('SEL', 'W', 'BV', 'LEN_A', 'AN', 'IDX', 'COERCE'):
         if k in kw:
             d[k] = kw.pop(k); name += '/%s%d' % (k.lower(), d[k])
+    excl = [KF_CTOR] + ([KF_TYPE] if op == 'AS_TYPE' else [])
+    if kf_only:
+        excl = [k for k in excl if k != kf_only]; name += '/only:' + kf_only
+    if MAN:
+        for k in excl: d['KF_EXCL_' + k.replace('-', '_')] = 1
+        if kf_only: d['KF_ONLY_' + kf_only.replace('-', '_')] = 1
     return Query(name, 'C12_value.cpp', 'h_step', d, bounds=B, default_unwind=6, rec_bounds={}, default_rec=3, timeout=300, mem_gb=8,
-                 leak=True, stubs={STN: 'stub_strtonum'}, **kw)
+                 leak=True, stubs={STN: 'stub_strtonum'}, kf_excl=excl, kf_only=(None if MAN else kf_only), **kw)
 def queries(tier):
+    q = tier == 'quick'
     qs = []
-    pres = ['U', 'UI', 'D', 'S1', 'A_UI', 'A_U_I', 'P_UI']
+    pres = ['U', 'NUL', 'UI', 'D', 'S1', 'A_UI', 'A_U_I', 'P_UI'] if q else \
+           ['U', 'NUL', 'T', 'F', 'UI', 'I', 'D', 'S0', 'S1', 'S2', 'A', 'A_UI', 'A_U', 'A_S', 'A_D', 'A_UI_I', 'A_U_I', 'A_UI_U', 'A_U_U', 'A_T_S',
+            'P_UI', 'P_U', 'P_S1', 'P_A_UI']
+    srcs = ['UI', 'A_UI'] if q else ['U', 'NUL', 'UI', 'D', 'S0', 'S1', 'A', 'A_UI', 'A_U_I', 'A_S', 'P_UI', 'P_A_UI']
     for p in pres:
-        for op in ('NONE', 'AS_SELF', 'CTOR_COPY', 'CTOR_MOVE', 'RESET', 'COMPRESS', 'REMOVE_KEY', 'GET_KEY'):
-            qs.append(Q(p, op))
+        A = lambda op, **kw: qs.append(Q(p, op, **kw))
+        for op in ('NONE', 'AS_SELF', 'CTOR_COPY', 'CTOR_MOVE', 'RESET', 'COMPRESS', 'REMOVE_KEY', 'GET_KEY'): A(op)
+        if p == 'A':
+            for bv in (1, 2, 3): A('NONE', BV=bv)
+        if p.startswith('A_') and not q:
+            for bv in (1, 2, 3): A('CTOR_COPY', BV=bv)
+        for s in ((0, 3, 5) if q else range(6)): A('AS_SCALAR', SEL=s)
+        for t in ((0, 3) if q else (0, 3, 4, 5, 6, 7, 8, 9, 10)): A('AS_TYPE', SEL=t)
+        for l in ((1,) if q else (0, 1, 2)): A('AS_STR', LEN_A=l, SEL=0)
+        A('AS_STR', SEL=1)
+        for an in ((1,) if q else (0, 1, 2)):
+            for w in (0, 1): A('AS_ARR', AN=an, W=w)
+        for op in ('AS_COPY', 'AS_MOVE', 'AP_COPY', 'AP_MOVE', 'MERGE_COPY', 'MERGE_MOVE'):
+            for s in srcs: A(op, src=s)
+        for s, w in (((0, 0), (3, 0), (5, 1)) if q else ((0, 0), (1, 0), (2, 0), (3, 0), (3, 1), (3, 2), (3, 3), (4, 0), (4, 1), (4, 2), (4, 3), (5, 0), (5, 1))):
+            A('AP_SCALAR', SEL=s, W=w)
+        for l, w in (((1, 0), (1, 3)) if q else [(l, w) for l in (0, 1, 2) for w in (0, 1, 2, 3)]): A('AP_STR', LEN_A=l, W=w)
+        for an, w in (((0, 0), (1, 0), (1, 1)) if q else [(an, w) for an in (0, 1, 2) for w in (0, 1)]): A('AP_ARR', AN=an, W=w)
+        for s in (('UI',) if q else ('UI', 'S1', 'A_UI')):
+            for sel in (0, 1):
+                A('AP_PTR', src=s, SEL=sel); A('SET_PTR', src=s, SEL=sel)
+        for i, w in (((0, 0), (1, 0), (2, 0), (1, 1), (1, 2)) if q else [(i, w) for i in (0, 1, 2, 3) for w in (0, 1, 2)]): A('INDEX', IDX=i, W=w)
+        for i in (0, 1, 2): A('REMOVE_INDEX', IDX=i)
+        c = cls(p)
+        if c['K'] == 3 and c['N'] > 0 and c['E1'] != 0:
+            A('AP_ELEM', SEL=0); A('AP_ELEM', SEL=1)
+    # the findings themselves
+    qs.append(Q('UI', 'AP_SCALAR', SEL=3, W=0, kf_only=KF_CTOR))
+    qs.append(Q('D', 'INDEX', IDX=0, W=0, kf_only=KF_CTOR))
+    qs.append(Q('S1', 'AS_TYPE', SEL=10, kf_only=KF_TYPE))
+    qs.append(Q('UI', 'AS_TYPE', SEL=3, kf_only=KF_TYPE))
     return qs
